@@ -219,6 +219,26 @@ fn check_twin(input: &TwinIn, case: &mut Case) -> Result<(), Fail> {
             }
         }
     }
+    // a quarter of the cases: the twin differs by trailing zero octets in one opaque field (padding a maintainer may ignore)
+    if mask & 0x0300 == 0x0300 {
+        if let ARData::Typed { code, fields } = &mut twin {
+            let info = type_info(*code);
+            for (i, f) in fields.iter_mut().enumerate() {
+                // only opaque data without its own length rule: Rest / fixed fields keep their size
+                let kind = info.and_then(|inf| value_fields(inf).nth(i)).map(|fd| fd.kind);
+                if let (Val::Bytes(b), Some(Kind::Rest)) = (&mut *f, kind) {
+                    if b.0.last() == Some(&0) {
+                        b.0.pop();
+                    } else {
+                        b.0.push(0);
+                    }
+                    changed += 1;
+                    case.class("zero-padding-twin");
+                    break;
+                }
+            }
+        }
+    }
     case.nontrivial = changed >= 1;
     case.class(format!("fields-changed-{}", changed.min(3)));
     let ra = ARecord { name: owner.clone(), class: 1, cache_flush: false, ttl: 7, rdata: x.clone() };
@@ -234,6 +254,48 @@ fn check_twin(input: &TwinIn, case: &mut Case) -> Result<(), Fail> {
         ensure!(h(&a) == h(&b), "c16:hash-record", "records with rdata {:?} and {:?} are == but hash differently", x, twin);
         let set: std::collections::HashSet<ResourceRecord> = [a.clone(), b.clone()].into_iter().collect();
         ensure!(set.len() == 1, "c16:set", "two equal records occupy {} slots of a HashSet", set.len());
+    }
+    Ok(())
+}
+
+/// the same type named two ways (its own variant / TYPE::Unknown(code), RData::Empty / RData::NULL without data):
+/// the library may call such values equal or different, but equal values must hash equally
+fn enum_alias(_t: Tier, shard: usize, n: usize, f: &mut dyn FnMut(u16) -> bool) {
+    for (i, code) in (0u16..=300).chain([32768, 65280, 65535]).enumerate() {
+        if mine(i, shard, n) && !f(code) {
+            return;
+        }
+    }
+}
+
+fn check_alias(code: &u16, case: &mut Case) -> Result<(), Fail> {
+    use simple_dns::rdata::{RData, NULL};
+    use simple_dns::{Name, CLASS, TYPE};
+    case.nontrivial = true;
+    let forms: Vec<(&str, RData)> = vec![
+        ("Empty(TYPE::from)", RData::Empty(TYPE::from(*code))),
+        ("Empty(TYPE::Unknown)", RData::Empty(TYPE::Unknown(*code))),
+        ("NULL(code, empty)", RData::NULL(*code, NULL::new(&[]).unwrap())),
+    ];
+    ensure!(h(&TYPE::from(*code)) == h(&TYPE::from(*code)), "c16:hash-type", "TYPE hash is not a function of the value");
+    if lib("TYPE::eq", || TYPE::from(*code) == TYPE::Unknown(*code))? {
+        case.class("type-forms-equal");
+        ensure!(h(&TYPE::from(*code)) == h(&TYPE::Unknown(*code)), "c16:hash-type", "TYPE::from({}) == TYPE::Unknown({}) but they hash differently", code, code);
+    }
+    for (i, (na, a)) in forms.iter().enumerate() {
+        for (nb, b) in forms.iter().skip(i + 1) {
+            if lib("RData::eq", || a == b)? {
+                case.class("rdata-forms-equal");
+                ensure!(h(a) == h(b), "c16:hash-rdata", "type {}: {} == {} but they hash differently", code, na, nb);
+            }
+            let ra = ResourceRecord::new(Name::new_unchecked("a.local"), CLASS::IN, 1, a.clone());
+            let rb = ResourceRecord::new(Name::new_unchecked("a.local"), CLASS::IN, 1, b.clone());
+            if lib("ResourceRecord::eq", || ra == rb)? {
+                ensure!(h(&ra) == h(&rb), "c16:hash-record", "type {}: records holding {} and {} are == but hash differently", code, na, nb);
+                let set: std::collections::HashSet<ResourceRecord> = [ra.clone(), rb.clone()].into_iter().collect();
+                ensure!(set.len() == 1, "c16:set", "two equal records occupy {} slots of a HashSet", set.len());
+            }
+        }
     }
     Ok(())
 }
@@ -394,12 +456,13 @@ fn check_inst(i: &Inst, case: &mut Case) -> Result<(), Fail> {
 pub fn def() -> CheckDef {
     CheckDef {
         id: "C16",
-        rule: "proptest: (1) suffix-sharing packets (as C03) built through the public API, serialised plain and compressed and parsed back, giving three versions of every value (built from parts, borrowed from the plain buffer, borrowed from the compressed buffer); each packet/question/record/name/label/RDATA is cloned and converted with into_owned (packets: rebuilt from owned parts) and must be ==, observe equally, hash equally and serialise to identical bytes plain and compressed; the three versions of each record must be pairwise ==, hash-equal and byte-equal. (2) pairs of records differing only in TTL / cache-flush, in the letter case of one owner or RDATA-name label, or in class: whenever == holds (for the record, its name, its labels, its rdata) the hashes must agree and a HashSet must hold one entry; likewise for pairs of records of one type whose RDATA differs in one or a few fields taken from a second value. (2b) fifteen edge values (incl. an NSEC whose windows are held out of order, SVCB with keys 0 and 65535, OPT records differing only in their class member) (empty TXT built five ways, empty NULL, SVCB without params, NSEC without windows, OPT without options, Empty, root names): clone and owned copy equal, hash-equal, byte-equal, also after a further string is added. (3) InstanceInformation built 32 times from the same addresses/ports/attributes in rotated and reversed insertion orders (fresh HashSet seeds each time): equal, equal hashes, one HashSet slot. Non-trivial = a name with >= 2 labels or a variable-length field (instances: >= 2 distinct addresses or ports)",
+        rule: "proptest: (1) suffix-sharing packets (as C03) built through the public API, serialised plain and compressed and parsed back, giving three versions of every value (built from parts, borrowed from the plain buffer, borrowed from the compressed buffer); each packet/question/record/name/label/RDATA is cloned and converted with into_owned (packets: rebuilt from owned parts) and must be ==, observe equally, hash equally and serialise to identical bytes plain and compressed; the three versions of each record must be pairwise ==, hash-equal and byte-equal. (2) pairs of records differing only in TTL / cache-flush, in the letter case of one owner or RDATA-name label, or in class: whenever == holds (for the record, its name, its labels, its rdata) the hashes must agree and a HashSet must hold one entry; likewise for pairs of records of one type whose RDATA differs in one or a few fields taken from a second value or in trailing zero octets of an opaque field, and for one type named three ways (Empty(TYPE::from(c)), Empty(TYPE::Unknown(c)), NULL(c, empty)) for every code 0..=300. (2b) fifteen edge values (incl. an NSEC whose windows are held out of order, SVCB with keys 0 and 65535, OPT records differing only in their class member) (empty TXT built five ways, empty NULL, SVCB without params, NSEC without windows, OPT without options, Empty, root names): clone and owned copy equal, hash-equal, byte-equal, also after a further string is added. (3) InstanceInformation built 32 times from the same addresses/ports/attributes in rotated and reversed insertion orders (fresh HashSet seeds each time): equal, equal hashes, one HashSet slot. Non-trivial = a name with >= 2 labels or a variable-length field (instances: >= 2 distinct addresses or ports)",
         assumptions: vec!["DefaultHasher::new() (fixed keys) for hash comparisons; std's per-HashSet RandomState only influences how quickly an order-dependent Hash is caught, never the verdict on a correct one"],
         sections: vec![
             Box::new(PropSection { name: "copies", rule: "clone / owned / built-vs-parsed", strategy: copies_strategy, cases: (60_000, 600_000), check: check_copies }),
             Box::new(PropSection { name: "ttl-flush", rule: "records equal up to ttl/flush", strategy: pair_strategy, cases: (200_000, 2_000_000), check: check_pair }),
             Box::new(PropSection { name: "field-twins", rule: "records of one type differing in few RDATA fields", strategy: twin_strategy, cases: (150_000, 1_500_000), check: check_twin }),
+            Box::new(EnumSection { name: "type-aliases", rule: "one type named through its variant, TYPE::Unknown and the NULL catch-all", enumerate: enum_alias, check: check_alias, exhaustive: true }),
             Box::new(EnumSection { name: "special-values", rule: "edge values of the constructors", enumerate: enum_special, check: check_special, exhaustive: true }),
             Box::new(PropSection { name: "instance-info", rule: "set-valued instance information", strategy: inst_strategy, cases: (20_000, 200_000), check: check_inst }),
         ],
